@@ -294,7 +294,7 @@ def finding_run(ctx, exe, line, env=None):
 # ------------------------------------------------------------------------- main
 def run(ctx):
     rng = ctx.rng
-    ctx.regen(["Dest", "StdHuff"])
+    ctx.regen(["Dest", "StdHuff", "WorstCase"])
     ctx.prove()
     drv = ctx.model_driver()
     srcs = ["c13.c", "c13_ijg.c"]
@@ -387,6 +387,33 @@ def run(ctx):
         if ml is not None and ml[i].strip() != impl:
             ctx.broken_tie("correspondence:arith", "model %s vs implementation %s on %s" % (ml[i][:60], impl[:60], l))
         ctx.count("arith", 1, ("arith", impl))
+
+    # ---- forward path of the worst-case model (DCT, quantiser 1, standard tables, stuffing) vs the real encoder
+    bl = ["blk " + ADV]
+    for i in range(ctx.n(250, 3000)):
+        k = rng.below(5)
+        if k == 0:
+            px = [rng.choice([0, 255]) for _ in range(64)]
+        elif k == 1:
+            px = [rng.below(256) for _ in range(64)]
+        elif k == 2:
+            base = rng.below(256)
+            px = [max(0, min(255, base + rng.range(-3, 3))) for _ in range(64)]
+        elif k == 3:
+            px = [int(x) for x in ADV.split()]
+            for _ in range(rng.range(1, 6)):
+                px[rng.below(64)] = rng.below(256)
+        else:
+            px = [(x * rng.range(0, 40) + y * rng.range(0, 40) + rng.below(8)) & 255 for y in range(8) for x in range(8)]
+        bl.append("blk " + " ".join(map(str, px)))
+    ml = model_lines(ctx, drv, bl)
+    rc, out, err = run_lines(exes["simd"], bl)
+    for i, l in enumerate(bl):
+        impl = out[i].strip() if i < len(out) else "<none>"
+        if ml is not None and ml[i].strip() != impl:
+            ctx.log("worst-case model/impl disagree\n  case : %s\n  model: %s\n  impl : %s" % (l[:200], ml[i][:200], impl[:200]))
+            ctx.broken_tie("correspondence:blk", "worst-case forward model differs from the encoder on %s" % l[:200])
+        ctx.count("blk", 1, ("blk", impl[-40:]))
 
     # ---- worst-case size probes
     wc = []
